@@ -23,6 +23,10 @@ def pSampler : P (Sampler Float) := do
   match (← tok) with
   | "s" => do pure (.scalar (← flt))
   | "r" => do let a ← flt; let b ← flt; let n ← nat; pure (Sampler.mkRange a b n)
+  | "ra" => do
+    -- a range sampler that has been used before: `k` earlier `sample()` calls
+    let a ← flt; let b ← flt; let n ← nat; let k ← nat
+    pure (Nat.repeat (fun s => (s.sample []).2.1) k (Sampler.mkRange a b n))
   | "d" => pure .dist
   | t => throw s!"sampler:{t}"
 
